@@ -98,14 +98,20 @@ func C20rounding(p *load.Program, run *report.Run) {
 }
 
 var keptState = map[string]string{
-	"ot.COT.iknpS":               "the extension sender is created once per initialised instance by design; its stream state is decided by prg-lockstep and mitccrh-schedule",
-	"ot.COT.iknpR":               "as iknpS",
-	"ot.ROT.iknpS":               "as COT.iknpS",
-	"ot.ROT.iknpR":               "as COT.iknpS",
-	"circuit.Streaming.tmp":      "the temporary wire store is grown on demand and reused by every streamed circuit; stream-garble-forms reads every slot as stale before it is written",
-	"circuit.StreamEval.tmp":     "as Streaming.tmp on the evaluator side (stream-eval-forms)",
-	"circuit.Circuit.garblePool": "the per-circuit pool of garbling scratch; what a pooled scratch holds is decided by put-at-most-once, release-escape, the stale-scratch atoms of the garbling forms and pool-publications",
-	"gmw.Network.output":         "set by the first received output share of a run and XOR-accumulated; the share algebra rule (output-reconstruction) decides its value from the statement that resets it in run",
+	"ot.COT.iknpS":                "the extension sender is created once per initialised instance by design; its stream state is decided by prg-lockstep and mitccrh-schedule",
+	"ot.COT.iknpR":                "as iknpS",
+	"ot.ROT.iknpS":                "as COT.iknpS",
+	"ot.ROT.iknpR":                "as COT.iknpS",
+	"circuit.Streaming.tmp":       "the temporary wire store is grown on demand and reused by every streamed circuit; stream-garble-forms reads every slot as stale before it is written",
+	"circuit.StreamEval.tmp":      "as Streaming.tmp on the evaluator side (stream-eval-forms)",
+	"circuit.Circuit.garblePool":  "the per-circuit pool of garbling scratch; what a pooled scratch holds is decided by put-at-most-once, release-escape, the stale-scratch atoms of the garbling forms and pool-publications",
+	"ssa.Program.zeroWire":        "the session's constant-zero wire, created by the first use in a Stream call and streamed once; a Program is streamed once (Compiler.Stream compiles a fresh Program per session) — a second Stream on the same Program is outside C05 (observed by a seeding agent to return 0 for (a&b)+3)",
+	"ssa.Program.oneWire":         "as Program.zeroWire",
+	"ssa.allocByValue.ids":        "the id vector of an allocation header, derived on demand from its wires; header contents across recycling are decided by recycled-object-reinitialised and hash-chain-integrity",
+	"circuits.Compiler.invI0Wire": "one per circuits.Compiler, which lives for one circuit (NewCompiler per compilation and per streamed instruction)",
+	"circuits.Compiler.zeroWire":  "as invI0Wire; its use as a constant is decided by gate-helpers and constprop",
+	"circuits.Compiler.oneWire":   "as zeroWire",
+	"gmw.Network.output":          "set by the first received output share of a run and XOR-accumulated; the share algebra rule (output-reconstruction) decides its value from the statement that resets it in run",
 }
 
 func keptStateRule(p *load.Program, run *report.Run, pkgs []string) {
@@ -218,4 +224,9 @@ func C12guards(p *load.Program, run *report.Run) {
 	run.Rule("guard-names-what-it-tests", "in compiler/ast, a checked type assertion `v, ok := R.….(T)` followed by `if !ok { … }` whose body names another variable of R's type and not R itself is a copied block that still reads the other operand (wideMulEval multiplied a by a); every such extraction is counted")
 	lints.GuardNames(p, run, []string{"compiler/ast"})
 	run.Floor("checked-extractions", 5)
+}
+
+// C05kept: kept state of the streaming compiler.
+func C05kept(p *load.Program, run *report.Run) {
+	keptStateRule(p, run, []string{"compiler/ssa", "compiler/circuits"})
 }
